@@ -61,6 +61,7 @@ XLS_FEATURES = {
     "empty-sheet": "a sheet without any cell between other sheets (twin: a one-column sheet)",
     "picture-spanning-continue-records": "an embedded picture larger than one BIFF record (8224 bytes): MSODRAWINGGROUP + CONTINUE records (twin: a small picture in one record)",
     "cp1252-summary": "SummaryInformation strings in code page 1252 with non-ASCII characters (twin: code page 65001)",
+    "date-system-1904": "DATEMODE 1: serial dates count from 1904-01-01 (Excel for Mac's long-time default) and every sheet has date cells (twin: the 1900 system)",
 }
 DOC_FEATURES = {
     "chapter-prefixed-paragraph": "a paragraph whose first word is 'Chapter' followed by body paragraphs (twin: first word 'Section')",
@@ -434,6 +435,9 @@ def build_xls(seed: int, feature: str | None = None, twin: bool = False):
     if feature == "empty-sheet":
         n_sheets = max(3, n_sheets)
     fsheet = rng.randrange(1, n_sheets - 1) if feature == "empty-sheet" else rng.randrange(n_sheets)
+    # the workbook's date system: a risky-feature knob and, rarely, on clean workbooks too
+    datemode = 1 if (feature == "date-system-1904" and not twin) or (feature is None and random.Random(f"xls:{seed}:datemode").random() < 0.2) else 0
+    epoch = _dt.date(1904, 1, 1) if datemode else _EPOCH
     sst: list[str] = []
     sst_refs = 0
 
@@ -505,7 +509,11 @@ def build_xls(seed: int, feature: str | None = None, twin: bool = False):
                     continue
                 k = rng.random()
                 guard = (j == cols - 1 and i in (1, rows - 1)) or j == 0 or (is_f and feature in ("duplicate-header", "two-empty-headers") and j in fcols)
-                if k < 0.12 and not guard:
+                if feature == "date-system-1904" and not guard and k < 0.6:
+                    serial = rng.randint(30000, 46000)
+                    rrow.append((j, "date", serial))
+                    grow.append({"v": (epoch + _dt.timedelta(days=serial)).isoformat()})
+                elif k < 0.12 and not guard:
                     if rng.random() < 0.4:
                         rrow.append((j, "blank", None))
                     grow.append({"empty": True})
@@ -530,9 +538,9 @@ def build_xls(seed: int, feature: str | None = None, twin: bool = False):
                     rrow.append((j, "bool", v))
                     grow.append({"v": v})
                 elif k < 0.91:
-                    serial = rng.randint(36526, 46000)          # whole-day dates from 2000-01-01, 1900 date system
+                    serial = rng.randint(36526, 46000)          # whole-day dates (from 2000-01-01 in the 1900 date system)
                     rrow.append((j, "date", serial))
-                    grow.append({"v": (_EPOCH + _dt.timedelta(days=serial)).isoformat()})
+                    grow.append({"v": (epoch + _dt.timedelta(days=serial)).isoformat()})
                 else:
                     v = rng.choice([rng.randint(1, 500), 2.75])
                     rrow.append((j, "formula", v))
@@ -613,7 +621,7 @@ def build_xls(seed: int, feature: str | None = None, twin: bool = False):
          _biff(0x00E1, struct.pack("<H", 0x04B0)),                       # INTERFACEHDR
          _biff(0x0042, struct.pack("<H", 1200)),                         # CODEPAGE utf-16
          _biff(0x003D, struct.pack("<HHHHHHHHH", 0, 0, 0x4000, 0x2000, 0x0038, 0, 0, 1, 600)),   # WINDOW1
-         _biff(0x0022, struct.pack("<H", 0))]                            # DATEMODE 1900
+         _biff(0x0022, struct.pack("<H", datemode))]                     # DATEMODE (0 = 1900, 1 = 1904 date system)
     g += [font() for _ in range(4)]
     g.append(_biff(0x041E, struct.pack("<H", 164) + _xl_str("0.000")))   # a custom FORMAT
     g += [xf(0, True) for _ in range(15)] + [xf(0, False), xf(14, False)]
